@@ -10,6 +10,7 @@ from yaml.nodes import ScalarNode
 
 from .. import core, yamlapi
 from ..ref import yaml11, bisim
+from ..gen import strings as S
 
 ID = 'C08'
 LEVEL = 'exploration'
@@ -318,9 +319,12 @@ def run(spec, ctx):
         r = random.Random(core.h64('C08ts', spec['seed'], spec['shard']))
         for i in range(spec['n']):
             s = ts(r) if i % 3 else members(r)
+            cls = 'timestamp' if i % 3 else 'member'
+            if i % 8 == 5:
+                s, cls = S.long_lookalike(r), 'long_lookalike'        # no length cut-off anywhere in resolution
             if i < 2:
                 ctx.sample({'class': 'timestamp/member', 'text': s})
-            t.text(s, 'timestamp' if i % 3 else 'member')
+            t.text(s, cls)
     elif kind == 'values':
         r = random.Random(core.h64('C08v', spec['seed'], spec['shard']))
         for i in range(spec['n']):
